@@ -229,9 +229,15 @@ func init() {
 				dev := Zip2(Tail(tp, p-1), ma, func(t, m float64) float64 { return math.Abs(t - m) })
 				md := SMA(dev, p) // md[k] at position k+2p-2
 				out := make([]RV, len(md))
+				pm := 0.0 // largest |TP| seen so far: bounds the residue a running sum may carry
+				for i := 0; i < 2*p-2 && i < n; i++ {
+					pm = math.Max(pm, math.Abs(tp[i]))
+				}
 				for k := range out {
 					i := k + 2*p - 2
+					pm = math.Max(pm, math.Abs(tp[i]))
 					out[k] = Quot(tp[i]-ma[k+p-1], 0.015*md[k], 0.015*math.Abs(tp[i]))
+					out[k].S = Resid(pm, 1/(0.015*md[k]))
 				}
 				return One(out)
 			},
